@@ -25,15 +25,16 @@ func createOperation(def definitions.ControllerMetadata, route definitions.Route
 }
 
 func createErrorResponse(openapi *openapi3.T, route definitions.RouteMetadata, errResp definitions.ErrorResponse) *openapi3.ResponseRef {
-	errorReturnType := route.GetErrorReturnType()
+	// Note that the returned type metadata is shared with the route (and with the routes generator) - it must not be modified
+	errorTypeName := route.GetErrorReturnType().Name
 
 	// Every vanilla error should be RFC7807
 	// User can override it by inheriting from error and add it's own error schema (as any other schema)
-	if errorReturnType.Name == "error" {
-		errorReturnType.Name = definitions.Rfc7807ErrorName
+	if errorTypeName == "error" {
+		errorTypeName = definitions.Rfc7807ErrorName
 	}
 
-	content := createContentWithSchemaRef(openapi, "", errorReturnType.Name)
+	content := createContentWithSchemaRef(openapi, "", errorTypeName)
 	errResString := errResp.Description
 	response := &openapi3.Response{
 		Description: &errResString,
